@@ -100,6 +100,14 @@ Proof. exact x_cfr_fallback_ok. Qed.
 Theorem C05_src_fiemap_unsupported : x_fiemap_unsupported_errnos = [EOPNOTSUPP].
 Proof. exact x_fiemap_unsupported_ok. Qed.
 
+Theorem C05_src_block_job_step : forall f flen off bytes done k rest,
+  block_job (S f) flen off bytes done (XOk k :: rest) =
+  let req := mkReq (x_block_job_offset off done) (x_block_job_offset off done) (x_block_job_request bytes done) in
+  if k =? 0 then mkOut (if x_block_job_zero_is_end flen off done then StOk else StErr EPREMATURE) [(req, XOk 0)] rest
+  else if x_block_job_complete (done + k) bytes then mkOut StOk [(req, XOk k)] rest
+  else out_cons (req, XOk k) (block_job f flen off bytes (done + k) rest).
+Proof. exact x_block_job_ok. Qed.
+
 Print Assumptions C05_uspace_range_exact.
 Print Assumptions C05_uspace_bytes_exact.
 Print Assumptions C05_parfile.
@@ -110,3 +118,4 @@ Print Assumptions C05_cfr_fallback_errnos.
 Print Assumptions C05_clone_unsupported_errnos.
 Print Assumptions C05_src_cfr_fallback_errnos.
 Print Assumptions C05_src_fiemap_unsupported.
+Print Assumptions C05_src_block_job_step.
